@@ -165,6 +165,15 @@ def check(cx):
                     continue
                 desc = '%s: %s %s' % (base_fn(fn), x['op'], show_term(x['place'])[:60])
                 r6.instance('[%s] %s' % (cfg, desc))
+                # ... and keyed by the connection's own nick
+                if x['op'] == 'remove_user' and x['args'][:1] != [CONN_NICK]:
+                    r6.violation('%s|teardown-key|%s' % (base_fn(fn), show_term(x['args'][0]) if x['args'] else '?'), '%s removes the user '
+                                 'stored under %s, which is not the connection\'s own nick' % (base_fn(fn), show_term(x['args'][0]) if x['args'] else '?'),
+                                 loc=pg.loc(e.node), config=cfg)
+                ukeys = [t[2] for t in subterms(x['place']) if isinstance(t, tuple) and len(t) == 3 and t[0] in ('idx', 'get') and t[1] == USERS]
+                if any(k != CONN_NICK for k in ukeys):
+                    r6.violation('%s|foreign-key|%s' % (base_fn(fn), x['op']), '%s changes a user entry not keyed by the connection\'s own nick'
+                                 % desc, loc=pg.loc(e.node), config=cfg)
                 ok, m = entails(e.pc, auth)
                 if not ok:
                     argk = ','.join(show_term(a) for a in x['args'][:1]) or show_term(x['place'])
